@@ -355,7 +355,7 @@ func autoPattern(t *Term) {
 		}
 		arith := x.Op == "+" || x.Op == "-" || x.Op == "*" || x.Op == "div" || x.Op == "mod" || x.Op == "ite" ||
 			x.Op == "and" || x.Op == "or" || x.Op == "not" || x.Op == "=>" || x.Op == "=" || x.Op == "<" || x.Op == "<=" || x.Op == ">" || x.Op == ">="
-		if arith && len(vars) > 0 {
+		if arith && len(vars) > 0 || notInPattern(x.Op) {
 			clean = false
 		}
 		isApp := x.UF && len(x.Args) > 0 || x.Op == "select" || x.Op == "slen" || x.Op == "sarr"
@@ -459,7 +459,7 @@ func patVars(x *Term, need map[string]bool) (map[string]bool, bool) {
 	}
 	bad := x.Op == "+" || x.Op == "-" || x.Op == "*" || x.Op == "ite" || x.Op == "and" || x.Op == "or" || x.Op == "not" ||
 		x.Op == "=>" || x.Op == "=" || x.Op == "<" || x.Op == "<=" || x.Op == ">" || x.Op == ">="
-	if bad && len(vars) > 0 {
+	if bad && len(vars) > 0 || notInPattern(x.Op) {
 		return nil, false
 	}
 	return vars, true
@@ -490,7 +490,7 @@ func walkNoRecord(x *Term, need map[string]bool) (map[string]bool, bool, int) {
 	}
 	arith := x.Op == "+" || x.Op == "-" || x.Op == "*" || x.Op == "div" || x.Op == "mod" || x.Op == "ite" ||
 		x.Op == "and" || x.Op == "or" || x.Op == "not" || x.Op == "=>" || x.Op == "=" || x.Op == "<" || x.Op == "<=" || x.Op == ">" || x.Op == ">="
-	if arith && len(vars) > 0 {
+	if arith && len(vars) > 0 || notInPattern(x.Op) {
 		clean = false
 	}
 	return vars, clean, size
